@@ -51,7 +51,8 @@ func (c *Config) Check() error {
 	for op, fns := range c.Operators {
 		for _, fn := range fns {
 			fnType, ok := c.Types[fn]
-			if !ok || fnType.Type.Kind() != reflect.Func {
+			// A map environment member holding nil has no type at all.
+			if !ok || fnType.Type == nil || fnType.Type.Kind() != reflect.Func {
 				return fmt.Errorf("function %s for %s operator does not exist in environment", fn, op)
 			}
 			requiredNumIn := 2
